@@ -38,6 +38,7 @@ type Engine struct {
 	timeout   time.Duration
 	mu        sync.Mutex
 	loadSecs  float64
+	known     map[string]bool // obligation names recorded as known findings
 }
 
 func goEnv() []string {
@@ -168,6 +169,12 @@ func loadEngine(repo string, patterns []string, overlay map[string][]byte, stdSp
 		e.funcs[k] = fn
 	}
 	registerModels(e)
+	e.known = map[string]bool{}
+	for _, f := range loadFindings() {
+		if f.Kind == "finding" {
+			e.known[f.Obl] = true
+		}
+	}
 	e.loadSecs = time.Since(start).Seconds()
 	return e, nil
 }
@@ -187,7 +194,7 @@ func (e *Engine) newFT(fn *ssa.Function, con *FuncContract) *FT {
 	return &FT{
 		eng: e, fn: fn, key: normName(fn.String()), con: con, d: newDecls(), heaps: map[string]*heapInfo{},
 		env: map[ssa.Value][]Term{}, locs: map[ssa.Value]*Loc{}, guard: map[*ssa.BasicBlock]Term{}, out: map[*ssa.BasicBlock]*State{},
-		edge: map[[2]int]Term{}, notes: map[string]bool{}, oblSeen: map[string]int{}, held: map[string]bool{},
+		edge: map[[2]int]Term{}, nonFresh: map[string]bool{}, notes: map[string]bool{}, oblSeen: map[string]int{}, held: map[string]bool{},
 	}
 }
 
